@@ -95,11 +95,23 @@ def successor_roles(cm):
                     args.append(PC)
                 else:
                     args.append(ev.sym_for("insn", ty))
-            outs = [(v, s2) for v, s2 in (ev.run_fn(q, args, st) or []) if s2.feasible]
+            from dispatch import opcode_matches
+            import models
+            if opcode_matches(fn, 30):
+                # the table is filled in the arm of the CFG pass itself: one iteration for a conditional jump
+                jcc = next(v_ for v_, d_ in sorted(isa.TABLE.items()) if d_["kind"] == "jcond")
+                lmr = models.LoopModel(F, q, min_arms=30)
+                pcn = models.loop_counter_name(F, q)[0]
+                outs = [(v, s2) for v, s2 in lmr.run(jcc, keep=lambda stmt: stmt["k"] == "let") if s2.feasible and s2.exit is None]
+                canon = lambda t: models.canon(t, pcn)
+                PC = ("v", "pc", 64)
+            else:
+                outs = [(v, s2) for v, s2 in (ev.run_fn(q, args, st) or []) if s2.feasible]
+                canon = lambda t: t
             if len(outs) != 1:
                 continue
             eff = [e for e in outs[0][1].effects if e[0] == "call" and isinstance(e[1], str)]
-            entry_key = {e[3]: e[2][1] for e in eff if e[1].endswith("BTreeMap<K, V, A>::entry") and len(e) > 3}
+            entry_key = {e[3]: canon(e[2][1]) for e in eff if e[1].endswith("BTreeMap<K, V, A>::entry") and len(e) > 3}
             got = {e[3]: entry_key.get(e[2][0]) for e in eff if e[1].endswith("::or_insert_with") and len(e) > 3}
             pc32 = T.trunc(32, PC)
             for e in eff:
